@@ -474,6 +474,34 @@ FNUNITS = [
       "variants": {"HIbitflush_m": {"of": "HIbitflush", "trap_calls": ["Hbitwrite"]}},
       "per_fn": {"Hbitseek": {"call_map": {"HIbitflush": "HIbitflush_m"}}},
       "abbrev": {"bitfile_rec": "rec"}}),
+    # C01 / C20 (unit Hfile2; unit Hfile = the physical layer below, C16): the ordinary-element paths of the access-record functions of hfile.c (Hinquire, Hseek, Hread, Hsetlength, Hwrite, Htrunc and the
+    # static HIrefresh_new they call).  `access_rec` / `file_rec` (results of HIaid2rec / HIfid2rec = HAatom_group + HAatom_object) are OBJECTS
+    # outside the function (entry fields, `_null`; a dereference while `_null` is undefined behaviour: check_object_null); the special-element
+    # dispatch `(*access_rec->special_func->f)(…)` is outside the translated text (reaching it is recorded in `ub`).  The layer below is a set of
+    # ASSUMED calls with written CONTRACTS (call_specs: result = an entry parameter, integer arguments appended to the call log `calls`, stores):
+    #   HTPinquire (code 1) hands out the DD fields dd_tag / dd_ref / dd_off / dd_len (state fields) through its non-NULL arguments;
+    #   HTPupdate (2) sets dd_off / dd_len (-2 = keep) and raises f_end_off to the end of the extent (HTIupdate_dd's last statement);
+    #   HPseek (3) sets f_cur_off; HP_read (4) / HP_write (5) advance it; HPgetdiskblock (7) returns its parameter and advances f_end_off;
+    #   HLconvert (6) and the calls of Hseek (8) / Hwrite (9) on the converted element return their parameter.
+    # Hwrite calls the translated Hsetlength, Hread / Hwrite / Hsetlength the translated HIrefresh_new (share_fields: the callee's object and
+    # contract fields are the caller's, checked: resolved from the same id).
+    ("Hfile2", "hdf/src/hfile.c", ["HIrefresh_new", "Hinquire", "Hseek", "Hread", "Hsetlength", "Hwrite", "Htrunc"],
+     {"ignore_calls": ["HEclear", "HEPclear", "HEpush", "HEreport"], "object_calls": ["HAatom_group", "HAatom_object"], "wrap_int_conv": True,
+      "unmodelled_indirect_calls": True, "check_object_null": True, "share_fields": True,
+      "call_specs": {
+          "HTPinquire": {"ret": "HTPinquire_ret", "log": 1, "out": {2: "dd_tag", 3: "dd_ref", 4: "dd_off", 5: "dd_len"}},
+          "HTPupdate": {"ret": "HTPupdate_ret", "log": 2,
+                        "set": [["dd_off", "(if $2 = -2 then s.dd_off else $2)"], ["dd_len", "(if $3 = -2 then s.dd_len else $3)"],
+                                ["file_rec_f_end_off", "(if (if $2 = -2 then s.dd_off else $2) ≠ -1 ∧ (if $3 = -2 then s.dd_len else $3) ≠ -1 ∧ "
+                                 "(if $2 = -2 then s.dd_off else $2) + (if $3 = -2 then s.dd_len else $3) > s.file_rec_f_end_off "
+                                 "then (if $2 = -2 then s.dd_off else $2) + (if $3 = -2 then s.dd_len else $3) else s.file_rec_f_end_off)"]]},
+          "HPseek": {"ret": "HPseek_ret", "log": 3, "set": [["file_rec_f_cur_off", "$2"]]},
+          "HP_read": {"ret": "HP_read_ret", "log": 4, "set": [["file_rec_f_cur_off", "s.file_rec_f_cur_off + $3"]]},
+          "HP_write": {"ret": "HP_write_ret", "log": 5, "set": [["file_rec_f_cur_off", "s.file_rec_f_cur_off + $3"]]},
+          "HLconvert": {"ret": "HLconvert_ret", "log": 6},
+          "HPgetdiskblock": {"ret": "HPgetdiskblock_ret", "log": 7, "set": [["file_rec_f_end_off", "s.file_rec_f_end_off + $2"]]},
+          "Hseek": {"ret": "reseek_ret", "log": 8},
+          "Hwrite": {"ret": "rewrite_ret", "log": 9}}}),
 ]
 
 
